@@ -1,7 +1,797 @@
-From Coq Require Import List Arith Bool Lia.
+(* Lemmas.v (C17) — proofs about the executable model in Toposort.v.
+   No size bound anywhere: the BFS loop is handled by an invariant and
+   induction on the fuel; completeness by induction on the depth of a node. *)
+From Coq Require Import List Arith Bool Lia Permutation.
 Import ListNotations.
 From SV Require Import C17.Toposort.
 
 Lemma toposort_smoke :
   toposort [(2,0);(3,2);(3,1);(2,4);(1,5)] = Some [1;2;0;3;4].
 Proof. vm_compute. reflexivity. Qed.
+
+(* ------------------------------------------------------------------ *)
+(* Specification predicates                                            *)
+
+(* every node has at most one incoming edge, r has none, edges go strictly
+   down in depth (acyclic), every source is the root or has a parent edge
+   (connected) *)
+Definition arborescence (es : list edge) (r : nat) : Prop :=
+  es <> [] /\ NoDup (map snd es) /\ ~ In r (map snd es) /\
+  exists depth : nat -> nat, forall u v, In (u,v) es ->
+    depth v = S (depth u) /\ (u = r \/ In u (map snd es)).
+
+Definition parent_before_child (es : list edge) (out : list nat) (r : nat) : Prop :=
+  forall k i u v, nth_error out k = Some i -> nth_error es i = Some (u,v) -> u <> r ->
+  exists k' j p, k' < k /\ nth_error out k' = Some j /\ nth_error es j = Some (p,u).
+
+(* the two definitions, unfolded (Props.v restates them through these) *)
+Lemma arborescence_unfold : forall es r,
+  arborescence es r =
+  (es <> [] /\ NoDup (map snd es) /\ ~ In r (map snd es) /\
+   exists depth : nat -> nat, forall u v, In (u,v) es ->
+     depth v = S (depth u) /\ (u = r \/ In u (map snd es))).
+Proof. reflexivity. Qed.
+
+Lemma parent_before_child_unfold : forall es out r,
+  parent_before_child es out r =
+  (forall k i u v, nth_error out k = Some i -> nth_error es i = Some (u,v) -> u <> r ->
+   exists k' j p, k' < k /\ nth_error out k' = Some j /\ nth_error es j = Some (p,u)).
+Proof. reflexivity. Qed.
+
+(* ------------------------------------------------------------------ *)
+(* Basic facts about the boolean helpers                               *)
+
+Lemma memb_true_iff : forall x l, memb x l = true <-> In x l.
+Proof.
+  intros x l. unfold memb. rewrite existsb_exists. split.
+  - intros [y [Hy He]]. apply Nat.eqb_eq in He. subst y. exact Hy.
+  - intros H. exists x. split; [exact H | apply Nat.eqb_refl].
+Qed.
+
+Lemma memb_false_iff : forall x l, memb x l = false <-> ~ In x l.
+Proof.
+  intros x l. rewrite <- memb_true_iff. destruct (memb x l); split; intros H; congruence.
+Qed.
+
+Lemma edge_eqb_eq : forall a b, edge_eqb a b = true <-> a = b.
+Proof.
+  intros [a1 a2] [b1 b2]. unfold edge_eqb. simpl.
+  rewrite andb_true_iff, !Nat.eqb_eq. split.
+  - intros [H1 H2]. subst. reflexivity.
+  - intros H. inversion H. split; reflexivity.
+Qed.
+
+Lemma edge_eqb_refl : forall a, edge_eqb a a = true.
+Proof. intros a. apply edge_eqb_eq. reflexivity. Qed.
+
+Lemma NoDup_app_intro : forall (A : Type) (l1 l2 : list A),
+  NoDup l1 -> NoDup l2 -> (forall x, In x l1 -> ~ In x l2) -> NoDup (l1 ++ l2).
+Proof.
+  intros A l1 l2 H1 H2 Hd. induction H1 as [|a l Ha Hl IH]; simpl.
+  - exact H2.
+  - constructor.
+    + intros Hin. apply in_app_or in Hin. destruct Hin as [Hin|Hin].
+      * exact (Ha Hin).
+      * apply (Hd a); [left; reflexivity | exact Hin].
+    + apply IH. intros x Hx. apply Hd. right. exact Hx.
+Qed.
+
+Lemma nth_error_Some_lt : forall (A : Type) (l : list A) k x,
+  nth_error l k = Some x -> k < length l.
+Proof.
+  intros A l k x H. apply nth_error_Some. rewrite H. discriminate.
+Qed.
+
+(* dedup *)
+Lemma dedup_acc_In : forall l seen x,
+  In x (dedup_acc seen l) <-> In x l /\ ~ In x seen.
+Proof.
+  induction l as [|a t IH]; intros seen x; simpl.
+  - tauto.
+  - destruct (memb a seen) eqn:E.
+    + apply memb_true_iff in E. rewrite IH. split.
+      * intros [H1 H2]. split; [right; exact H1 | exact H2].
+      * intros [[H1|H1] H2]; [subst a; contradiction | split; assumption].
+    + apply memb_false_iff in E. simpl. rewrite IH. simpl. split.
+      * intros [H1|[H1 H2]].
+        -- subst a. split; [left; reflexivity | exact E].
+        -- split; [right; exact H1 | intros H; apply H2; right; exact H].
+      * intros [[H1|H1] H2].
+        -- left. exact H1.
+        -- destruct (Nat.eq_dec a x) as [Heq|Hneq]; [left; exact Heq|].
+           right. split; [exact H1|]. intros [H|H]; [exact (Hneq H) | exact (H2 H)].
+Qed.
+
+Lemma dedup_In : forall l x, In x (dedup l) <-> In x l.
+Proof.
+  intros l x. unfold dedup. rewrite dedup_acc_In. simpl. tauto.
+Qed.
+
+Lemma dedup_acc_id : forall l seen,
+  NoDup l -> (forall x, In x l -> ~ In x seen) -> dedup_acc seen l = l.
+Proof.
+  induction l as [|a t IH]; intros seen Hnd Hs; simpl.
+  - reflexivity.
+  - inversion Hnd as [|a' t' Ha Ht]; subst.
+    assert (E : memb a seen = false).
+    { apply memb_false_iff. apply Hs. left. reflexivity. }
+    rewrite E. f_equal. apply IH; [exact Ht|].
+    intros x Hx [Hax|Hxs].
+    + subst x. exact (Ha Hx).
+    + apply (Hs x); [right; exact Hx | exact Hxs].
+Qed.
+
+Lemma dedup_id : forall l, NoDup l -> dedup l = l.
+Proof.
+  intros l H. unfold dedup. apply dedup_acc_id; [exact H|]. intros x _ [].
+Qed.
+
+Lemma NoDup_map_filter : forall (A B : Type) (g : A -> B) (f : A -> bool) (l : list A),
+  NoDup (map g l) -> NoDup (map g (filter f l)).
+Proof.
+  intros A B g f l. induction l as [|a t IH]; simpl; intros H.
+  - constructor.
+  - inversion H as [|x y Ha Ht]; subst.
+    destruct (f a); simpl.
+    + constructor; [|apply IH; exact Ht].
+      intros Hin. apply Ha. apply in_map_iff in Hin. destruct Hin as [e [He Hf]].
+      apply filter_In in Hf. destruct Hf as [Hf _].
+      rewrite <- He. apply in_map. exact Hf.
+    + apply IH. exact Ht.
+Qed.
+
+Lemma NoDup_snd_unique : forall (l : list edge) p q v,
+  NoDup (map snd l) -> In (p,v) l -> In (q,v) l -> p = q.
+Proof.
+  induction l as [|a t IH]; intros p q v Hnd Hp Hq; simpl in *.
+  - contradiction.
+  - inversion Hnd as [|x y Ha Ht]; subst.
+    destruct Hp as [Hp|Hp]; destruct Hq as [Hq|Hq].
+    + congruence.
+    + exfalso. apply Ha. subst a. simpl. change v with (snd (q,v)). apply in_map. exact Hq.
+    + exfalso. apply Ha. subst a. simpl. change v with (snd (p,v)). apply in_map. exact Hp.
+    + apply (IH p q v Ht Hp Hq).
+Qed.
+
+Lemma find_first_unique : forall (A : Type) (p : A -> bool) (l : list A) (x : A),
+  In x l -> p x = true -> (forall y, In y l -> p y = true -> y = x) ->
+  find p l = Some x.
+Proof.
+  intros A p l x. induction l as [|a t IH]; intros Hin Hpx Hu; simpl.
+  - contradiction.
+  - destruct (p a) eqn:E.
+    + f_equal. apply Hu; [left; reflexivity | exact E].
+    + apply IH.
+      * destruct Hin as [Hin|Hin]; [subst a; congruence | exact Hin].
+      * exact Hpx.
+      * intros y Hy. apply Hu. right. exact Hy.
+Qed.
+
+Lemma indeg0_true_iff : forall es v, indeg0 es v = true <-> ~ In v (map snd es).
+Proof.
+  intros es v. unfold indeg0. rewrite negb_true_iff.
+  assert (H : existsb (fun e : edge => snd e =? v) es = true <-> In v (map snd es)).
+  { rewrite existsb_exists, in_map_iff. split.
+    - intros [e [H1 H2]]. exists e. apply Nat.eqb_eq in H2. split; assumption.
+    - intros [e [H1 H2]]. exists e. split; [exact H2 | apply Nat.eqb_eq; exact H1]. }
+  rewrite <- H. symmetry. apply not_true_iff_false.
+Qed.
+
+Lemma nonempty_has_edge : forall l : list edge, l <> [] -> exists u v, In (u,v) l.
+Proof.
+  intros [|[u v] t] H; [congruence|]. exists u, v. left. reflexivity.
+Qed.
+
+Lemma visit_children_fresh : forall u cs visited,
+  NoDup cs -> (forall c, In c cs -> ~ In c visited) ->
+  visit_children u cs visited = (cs, map (pair u) cs).
+Proof.
+  intros u. induction cs as [|c t IH]; intros visited Hnd Hf; simpl.
+  - reflexivity.
+  - inversion Hnd as [|x y Hc Ht]; subst.
+    assert (E : memb c visited = false).
+    { apply memb_false_iff. apply Hf. left. reflexivity. }
+    rewrite E. rewrite IH.
+    + reflexivity.
+    + exact Ht.
+    + intros c' Hc' [H|H].
+      * subst c'. exact (Hc Hc').
+      * apply (Hf c'); [right; exact Hc' | exact H].
+Qed.
+
+Lemma bfs_cons : forall f es u q visited,
+  bfs (S f) es (u :: q) visited =
+  let '(nv, em) := visit_children u (children es u) visited in
+  match bfs f es (q ++ nv) (rev nv ++ visited) with
+  | None => None
+  | Some rest => Some (em ++ rest)
+  end.
+Proof. reflexivity. Qed.
+
+(* index_of / all_some *)
+Lemma index_of_nth : forall e l i, index_of e l = Some i -> nth_error l i = Some e.
+Proof.
+  intros e. induction l as [|x t IH]; intros i H; simpl in H.
+  - discriminate.
+  - destruct (edge_eqb e x) eqn:E.
+    + apply edge_eqb_eq in E. inversion H. subst. reflexivity.
+    + destruct (index_of e t) as [j|]; [|discriminate].
+      inversion H. subst i. simpl. apply IH. reflexivity.
+Qed.
+
+Lemma index_of_self_map : forall l, NoDup l ->
+  map (fun e => index_of e l) l = map Some (seq 0 (length l)).
+Proof.
+  induction l as [|x t IH]; intros Hnd.
+  - reflexivity.
+  - inversion Hnd as [|x' t' Hx Ht]; subst.
+    simpl. rewrite edge_eqb_refl. f_equal.
+    transitivity (map (fun e => option_map S (index_of e t)) t).
+    + apply map_ext_in. intros e He.
+      destruct (edge_eqb e x) eqn:E.
+      * apply edge_eqb_eq in E. subst e. contradiction.
+      * destruct (index_of e t); reflexivity.
+    + rewrite <- (map_map (fun e => index_of e t) (option_map S)).
+      rewrite (IH Ht). rewrite map_map. rewrite <- seq_shift. rewrite map_map.
+      reflexivity.
+Qed.
+
+Lemma all_some_map_Some : forall (A : Type) (l : list A), all_some (map Some l) = Some l.
+Proof.
+  intros A. induction l as [|a t IH]; simpl.
+  - reflexivity.
+  - rewrite IH. reflexivity.
+Qed.
+
+Lemma all_some_Some : forall (A : Type) (l : list (option A)) out,
+  all_some l = Some out -> l = map Some out.
+Proof.
+  intros A. induction l as [|a t IH]; intros out H; simpl in H.
+  - inversion H. reflexivity.
+  - destruct a as [a|]; [|discriminate].
+    destruct (all_some t) as [r|]; [|discriminate].
+    inversion H. subst out. simpl. f_equal. apply IH. reflexivity.
+Qed.
+
+(* ------------------------------------------------------------------ *)
+(* The BFS invariant, for a fixed arborescence                         *)
+
+Section Arb.
+  Variable es : list edge.
+  Variable r : nat.
+  Variable depth : nat -> nat.
+  Hypothesis Hne : es <> [].
+  Hypothesis Hnd : NoDup (map snd es).
+  Hypothesis Hr : ~ In r (map snd es).
+  Hypothesis Hdepth : forall u v, In (u,v) es ->
+    depth v = S (depth u) /\ (u = r \/ In u (map snd es)).
+
+  Lemma unique_parent : forall p q v, In (p,v) es -> In (q,v) es -> p = q.
+  Proof. intros p q v. apply NoDup_snd_unique. exact Hnd. Qed.
+
+  Lemma in_snd_parent : forall (l : list edge) u, In u (map snd l) -> exists p, In (p,u) l.
+  Proof.
+    intros l u H. apply in_map_iff in H. destruct H as [[p u'] [H1 H2]].
+    simpl in H1. subst u'. exists p. exact H2.
+  Qed.
+
+  Lemma in_parent_snd : forall (l : list edge) p u, In (p,u) l -> In u (map snd l).
+  Proof.
+    intros l p u H. change u with (snd (p,u)). apply in_map. exact H.
+  Qed.
+
+  Lemma NoDup_es : NoDup es.
+  Proof. apply NoDup_map_inv with (f := snd). exact Hnd. Qed.
+
+  Lemma children_eq : forall u,
+    children es u = map snd (filter (fun e : edge => fst e =? u) es).
+  Proof.
+    intros u. unfold children. apply dedup_id. apply NoDup_map_filter. exact Hnd.
+  Qed.
+
+  Lemma children_In : forall u c, In c (children es u) <-> In (u,c) es.
+  Proof.
+    intros u c. rewrite children_eq, in_map_iff. split.
+    - intros [[a b] [Hs Hf]]. simpl in Hs. subst b.
+      apply filter_In in Hf. destruct Hf as [Hin Hq]. simpl in Hq.
+      apply Nat.eqb_eq in Hq. subst a. exact Hin.
+    - intros H. exists (u,c). split; [reflexivity|].
+      apply filter_In. split; [exact H|]. simpl. apply Nat.eqb_refl.
+  Qed.
+
+  Lemma children_NoDup : forall u, NoDup (children es u).
+  Proof.
+    intros u. rewrite children_eq. apply NoDup_map_filter. exact Hnd.
+  Qed.
+
+  (* the root really occurs as a source *)
+  Lemma root_has_child_aux : forall n u v,
+    depth u < n -> In (u,v) es -> exists w, In (r,w) es.
+  Proof.
+    induction n as [|n IH]; intros u v Hlt Hin.
+    - lia.
+    - destruct (Hdepth u v Hin) as [_ [Hu|Hu]].
+      + subst u. exists v. exact Hin.
+      + destruct (in_snd_parent es u Hu) as [p Hp].
+        destruct (Hdepth p u Hp) as [Hd _].
+        apply (IH p u); [lia | exact Hp].
+  Qed.
+
+  Lemma root_has_child : exists w, In (r,w) es.
+  Proof.
+    destruct (nonempty_has_edge es Hne) as [u [v Huv]].
+    apply (root_has_child_aux (S (depth u)) u v); [lia | exact Huv].
+  Qed.
+
+  Lemma root_eq : root es = Some r.
+  Proof.
+    unfold root. apply find_first_unique.
+    - unfold nodes_in_order. rewrite dedup_In. apply in_flat_map.
+      destruct root_has_child as [w Hw]. exists (r,w). split; [exact Hw|].
+      simpl. left. reflexivity.
+    - apply indeg0_true_iff. exact Hr.
+    - intros y Hy Hp. apply indeg0_true_iff in Hp.
+      unfold nodes_in_order in Hy. rewrite dedup_In in Hy. apply in_flat_map in Hy.
+      destruct Hy as [[u v] [He Hy]]. simpl in Hy.
+      destruct Hy as [Hy|[Hy|[]]]; subst y.
+      + destruct (Hdepth u v He) as [_ [Hu|Hu]]; [exact Hu | contradiction].
+      + exfalso. apply Hp. apply (in_parent_snd es u v He).
+  Qed.
+
+  Record Inv (done queue visited : list nat) (acc : list edge) : Prop := {
+    inv_vis : forall x, In x visited <-> x = r \/ In x (map snd acc);
+    inv_nd : NoDup (done ++ queue);
+    inv_dq : forall x, In x (done ++ queue) <-> In x visited;
+    inv_complete : forall u v, In (u,v) es -> In u done -> In (u,v) acc;
+    inv_sound : forall u v, In (u,v) acc -> In (u,v) es /\ In u done;
+    inv_acc_nd : NoDup (map snd acc);
+    inv_ord : forall k u v, nth_error acc k = Some (u,v) -> u <> r ->
+              exists k' p, k' < k /\ nth_error acc k' = Some (p,u)
+  }.
+
+  Lemma Inv_init : Inv [] [r] [r] [].
+  Proof.
+    constructor; simpl.
+    - intros x. split; [intros [H|[]]; left; symmetry; exact H | intros [H|[]]; left; symmetry; exact H].
+    - constructor; [intros [] | constructor].
+    - intros x. tauto.
+    - intros u v _ [].
+    - intros u v [].
+    - constructor.
+    - intros k u v H. destruct k; discriminate.
+  Qed.
+
+  Lemma Inv_acc_length : forall done queue visited acc,
+    Inv done queue visited acc -> length acc <= length es.
+  Proof.
+    intros done queue visited acc I. apply NoDup_incl_length.
+    - apply NoDup_map_inv with (f := snd). exact (inv_acc_nd _ _ _ _ I).
+    - intros [u v] H. exact (proj1 (inv_sound _ _ _ _ I u v H)).
+  Qed.
+
+  Lemma Inv_fresh : forall done u q visited acc,
+    Inv done (u :: q) visited acc ->
+    forall c, In c (children es u) -> ~ In c visited.
+  Proof.
+    intros done u q visited acc I c Hc Hv.
+    apply children_In in Hc.
+    apply (inv_vis _ _ _ _ I) in Hv. destruct Hv as [Hv|Hv].
+    - subst c. apply Hr. apply (in_parent_snd es u r Hc).
+    - destruct (in_snd_parent acc c Hv) as [p Hp].
+      destruct (inv_sound _ _ _ _ I p c Hp) as [Hpe Hpd].
+      assert (p = u) by (apply (unique_parent p u c); assumption). subst p.
+      apply (NoDup_remove_2 _ _ _ (inv_nd _ _ _ _ I)).
+      apply in_or_app. left. exact Hpd.
+  Qed.
+
+  Lemma Inv_step : forall done u q visited acc,
+    Inv done (u :: q) visited acc ->
+    Inv (done ++ [u]) (q ++ children es u) (rev (children es u) ++ visited)
+        (acc ++ map (pair u) (children es u)).
+  Proof.
+    intros done u q visited acc I.
+    pose proof (Inv_fresh _ _ _ _ _ I) as Hfresh.
+    set (cs := children es u) in *.
+    assert (Hms : @map edge nat snd (map (pair u) cs) = cs).
+    { rewrite map_map. simpl. apply map_id. }
+    assert (Hre : (done ++ [u]) ++ q ++ cs = (done ++ u :: q) ++ cs).
+    { rewrite <- !app_assoc. reflexivity. }
+    assert (Hu_vis : In u visited).
+    { apply (inv_dq _ _ _ _ I). apply in_or_app. right. left. reflexivity. }
+    constructor.
+    - intros x. rewrite in_app_iff, <- in_rev, map_app, in_app_iff, Hms.
+      rewrite (inv_vis _ _ _ _ I). tauto.
+    - rewrite Hre. apply NoDup_app_intro.
+      + exact (inv_nd _ _ _ _ I).
+      + apply children_NoDup.
+      + intros x Hx Hc. apply (Hfresh x Hc). apply (inv_dq _ _ _ _ I). exact Hx.
+    - intros x. rewrite Hre.
+      rewrite (in_app_iff (done ++ u :: q) cs), (in_app_iff (rev cs) visited), <- in_rev.
+      rewrite (inv_dq _ _ _ _ I). tauto.
+    - intros a b Hab Ha. apply in_or_app. apply in_app_or in Ha.
+      destruct Ha as [Ha|[Ha|[]]].
+      + left. apply (inv_complete _ _ _ _ I); assumption.
+      + subst a. right. apply in_map. apply children_In. exact Hab.
+    - intros a b Hab. apply in_app_or in Hab. destruct Hab as [Hab|Hab].
+      + destruct (inv_sound _ _ _ _ I a b Hab) as [H1 H2].
+        split; [exact H1 | apply in_or_app; left; exact H2].
+      + apply in_map_iff in Hab. destruct Hab as [c [Hc1 Hc2]].
+        inversion Hc1. subst a b. split.
+        * apply children_In. exact Hc2.
+        * apply in_or_app. right. left. reflexivity.
+    - rewrite map_app, Hms. apply NoDup_app_intro.
+      + exact (inv_acc_nd _ _ _ _ I).
+      + apply children_NoDup.
+      + intros x Hx Hc. apply (Hfresh x Hc). apply (inv_vis _ _ _ _ I). right. exact Hx.
+    - intros k a b Hk Har.
+      destruct (Nat.lt_ge_cases k (length acc)) as [Hlt|Hge].
+      + rewrite nth_error_app1 in Hk by exact Hlt.
+        destruct (inv_ord _ _ _ _ I k a b Hk Har) as [k' [p [Hk' Hp]]].
+        exists k', p. split; [exact Hk'|].
+        rewrite nth_error_app1 by lia. exact Hp.
+      + rewrite nth_error_app2 in Hk by exact Hge.
+        apply nth_error_In in Hk. apply in_map_iff in Hk.
+        destruct Hk as [c [Hc1 Hc2]]. inversion Hc1. subst a b.
+        apply (inv_vis _ _ _ _ I) in Hu_vis. destruct Hu_vis as [Hur|Hua]; [contradiction|].
+        destruct (in_snd_parent acc u Hua) as [p Hp].
+        apply In_nth_error in Hp. destruct Hp as [k' Hk'].
+        exists k', p.
+        assert (k' < length acc) by (exact (nth_error_Some_lt _ _ _ _ Hk')).
+        split; [lia|]. rewrite nth_error_app1 by assumption. exact Hk'.
+  Qed.
+
+  Lemma bfs_inv : forall fuel done queue visited acc,
+    Inv done queue visited acc ->
+    length queue + length es <= fuel + length acc ->
+    exists rest done' visited',
+      bfs fuel es queue visited = Some rest /\ Inv done' [] visited' (acc ++ rest).
+  Proof.
+    induction fuel as [|f IH]; intros done queue visited acc I Hlen;
+      pose proof (Inv_acc_length _ _ _ _ I) as Hacc;
+      destruct queue as [|u q].
+    - exists [], done, visited. simpl. rewrite app_nil_r. split; [reflexivity | exact I].
+    - simpl in Hlen. lia.
+    - exists [], done, visited. simpl. rewrite app_nil_r. split; [reflexivity | exact I].
+    - rewrite bfs_cons.
+      rewrite (visit_children_fresh u (children es u) visited
+                 (children_NoDup u) (Inv_fresh _ _ _ _ _ I)).
+      pose proof (Inv_step _ _ _ _ _ I) as I'.
+      destruct (IH _ _ _ _ I') as [rest [d' [v' [Hb Hinv]]]].
+      { rewrite !app_length, map_length. simpl in Hlen. lia. }
+      rewrite Hb. exists (map (pair u) (children es u) ++ rest), d', v'.
+      split; [reflexivity|]. rewrite app_assoc. exact Hinv.
+  Qed.
+
+  (* what the finished loop has produced *)
+  Definition sorted_spec (sorted : list edge) : Prop :=
+    Permutation sorted es /\
+    forall k u v, nth_error sorted k = Some (u,v) -> u <> r ->
+      exists k' p, k' < k /\ nth_error sorted k' = Some (p,u).
+
+  Lemma Inv_final_complete : forall done visited sorted,
+    Inv done [] visited sorted ->
+    forall n u v, depth u < n -> In (u,v) es -> In (u,v) sorted.
+  Proof.
+    intros done visited sorted I.
+    assert (Hdone : forall x, (x = r \/ In x (map snd sorted)) -> In x done).
+    { intros x Hx. apply (inv_vis _ _ _ _ I) in Hx. apply (inv_dq _ _ _ _ I) in Hx.
+      rewrite app_nil_r in Hx. exact Hx. }
+    induction n as [|n IH]; intros u v Hlt Hin.
+    - lia.
+    - apply (inv_complete _ _ _ _ I u v Hin). apply Hdone.
+      destruct (Hdepth u v Hin) as [_ [Hu|Hu]].
+      + left. exact Hu.
+      + right. destruct (in_snd_parent es u Hu) as [p Hp].
+        destruct (Hdepth p u Hp) as [Hd _].
+        apply (in_parent_snd sorted p u). apply (IH p u); [lia | exact Hp].
+  Qed.
+
+  Lemma bfs_edges_spec : exists sorted, bfs_edges es = Some sorted /\ sorted_spec sorted.
+  Proof.
+    unfold bfs_edges. rewrite root_eq.
+    destruct (bfs_inv (S (length es)) [] [r] [r] [] Inv_init) as [rest [d' [v' [Hb I]]]].
+    { simpl. lia. }
+    simpl in I. exists rest. split; [exact Hb|]. split.
+    - apply NoDup_Permutation.
+      + apply NoDup_map_inv with (f := snd). exact (inv_acc_nd _ _ _ _ I).
+      + exact NoDup_es.
+      + intros [u v]. split.
+        * intros H. exact (proj1 (inv_sound _ _ _ _ I u v H)).
+        * intros H. apply (Inv_final_complete _ _ _ I (S (depth u)) u v); [lia | exact H].
+    - exact (inv_ord _ _ _ _ I).
+  Qed.
+
+  Lemma toposort_arb :
+    exists out, toposort es = Some out /\ Permutation out (seq 0 (length es)) /\
+                parent_before_child es out r.
+  Proof.
+    destruct bfs_edges_spec as [sorted [Hb [Hperm Hord]]].
+    unfold toposort. rewrite Hb.
+    pose proof (Permutation_map (fun e => index_of e es) Hperm) as HP.
+    rewrite (index_of_self_map es NoDup_es) in HP.
+    apply Permutation_map_inv in HP. destruct HP as [out [Hmap Hpo]].
+    exists out. rewrite Hmap. split; [apply all_some_map_Some|].
+    split; [apply Permutation_sym; exact Hpo|].
+    intros k i u v Hk Hi Hur.
+    assert (Hnth : forall k0, option_map (fun e => index_of e es) (nth_error sorted k0)
+                              = option_map Some (nth_error out k0)).
+    { intros k0. rewrite <- !nth_error_map. rewrite Hmap. reflexivity. }
+    pose proof (Hnth k) as Hk1. rewrite Hk in Hk1. simpl in Hk1.
+    destruct (nth_error sorted k) as [e|] eqn:He; [|discriminate].
+    simpl in Hk1. inversion Hk1 as [Hidx]. apply index_of_nth in Hidx.
+    rewrite Hi in Hidx. inversion Hidx. subst e.
+    destruct (Hord k u v He Hur) as [k' [p [Hlt Hp]]].
+    pose proof (Hnth k') as Hk2. rewrite Hp in Hk2. simpl in Hk2.
+    destruct (nth_error out k') as [j|] eqn:Hj; [|discriminate].
+    simpl in Hk2. inversion Hk2 as [Hidx2]. apply index_of_nth in Hidx2.
+    exists k', j, p. split; [exact Hlt|]. split; [exact Hj | exact Hidx2].
+  Qed.
+
+End Arb.
+
+Theorem toposort_tree_complete_ordered_proof : forall es r, arborescence es r ->
+  exists out, toposort es = Some out /\ Permutation out (seq 0 (length es)) /\
+              parent_before_child es out r.
+Proof.
+  intros es r [Hne [Hnd [Hr [depth Hdepth]]]].
+  exact (toposort_arb es r depth Hne Hnd Hr Hdepth).
+Qed.
+
+Lemma arborescence_root : forall es r, arborescence es r -> root es = Some r.
+Proof.
+  intros es r [Hne [Hnd [Hr [depth Hdepth]]]].
+  apply (root_eq es r depth); assumption.
+Qed.
+
+(* ------------------------------------------------------------------ *)
+(* Freshness of the destination (used by C08)                          *)
+
+Lemma NoDup_nth_error_inj : forall (A : Type) (l : list A) i j x,
+  NoDup l -> nth_error l i = Some x -> nth_error l j = Some x -> i = j.
+Proof.
+  intros A l i j x Hnd Hi Hj.
+  apply (proj1 (NoDup_nth_error l) Hnd).
+  - exact (nth_error_Some_lt _ _ _ _ Hi).
+  - rewrite Hi, Hj. reflexivity.
+Qed.
+
+Lemma NoDup_snd_index : forall (es : list edge) i j u a v,
+  NoDup (map snd es) -> nth_error es i = Some (u,v) -> nth_error es j = Some (a,v) -> i = j.
+Proof.
+  intros es i j u a v Hnd Hi Hj.
+  apply (NoDup_nth_error_inj _ (map snd es) i j v Hnd).
+  - exact (map_nth_error snd _ _ Hi).
+  - exact (map_nth_error snd _ _ Hj).
+Qed.
+
+Lemma toposort_dst_fresh_proof : forall es r out, arborescence es r -> toposort es = Some out ->
+  forall k i u v, nth_error out k = Some i -> nth_error es i = Some (u,v) ->
+  forall k' j a b, k' < k -> nth_error out k' = Some j -> nth_error es j = Some (a,b) ->
+  a <> v /\ b <> v.
+Proof.
+  intros es r out Harb Ht k i u v Hk Hi k' j a b Hlt Hk' Hj.
+  destruct (toposort_tree_complete_ordered_proof es r Harb) as [out' [Ht' [Hperm Hpbc]]].
+  rewrite Ht in Ht'. inversion Ht'. subst out'. clear Ht'.
+  destruct Harb as [Hne [Hnd [Hr _]]].
+  assert (Hndo : NoDup out).
+  { apply (Permutation_NoDup (Permutation_sym Hperm)). apply seq_NoDup. }
+  split.
+  - intros Hav. subst a.
+    assert (Hvr : v <> r).
+    { intros E. subst v. apply Hr. change r with (snd (u,r)). apply in_map.
+      apply (nth_error_In _ _ Hi). }
+    destruct (Hpbc k' j v b Hk' Hj Hvr) as [k'' [j' [p [Hlt' [Hk'' Hj']]]]].
+    assert (i = j') by (apply (NoDup_snd_index es i j' u p v Hnd Hi Hj')). subst j'.
+    assert (k = k'') by (apply (NoDup_nth_error_inj _ out k k'' i Hndo Hk Hk'')).
+    lia.
+  - intros Hbv. subst b.
+    assert (i = j) by (apply (NoDup_snd_index es i j u a v Hnd Hi Hj)). subst j.
+    assert (k = k') by (apply (NoDup_nth_error_inj _ out k k' i Hndo Hk Hk')).
+    lia.
+Qed.
+
+(* ------------------------------------------------------------------ *)
+(* The boolean statement order_ok agrees with the Prop-level statement *)
+
+Definition pb_spec (es : list edge) (r : nat) (seen out : list nat) : Prop :=
+  forall k i, nth_error out k = Some i ->
+    exists u v, nth_error es i = Some (u,v) /\
+      (u = r \/ In u seen \/
+       exists k' j p, k' < k /\ nth_error out k' = Some j /\ nth_error es j = Some (p,u)).
+
+Lemma parent_before_complete : forall es r out seen,
+  pb_spec es r seen out -> parent_before es r seen out = true.
+Proof.
+  intros es r. induction out as [|i t IH]; intros seen H; simpl.
+  - reflexivity.
+  - destruct (H 0 i eq_refl) as [u [v [Hi Hc]]]. rewrite Hi.
+    apply andb_true_iff. split.
+    + apply orb_true_iff. destruct Hc as [Hc|[Hc|Hc]].
+      * left. apply Nat.eqb_eq. exact Hc.
+      * right. apply memb_true_iff. exact Hc.
+      * destruct Hc as [k' [j [p [Hlt _]]]]. lia.
+    + apply IH. intros k i' Hk.
+      destruct (H (S k) i' Hk) as [u' [v' [Hi' Hc']]].
+      exists u', v'. split; [exact Hi'|].
+      destruct Hc' as [Hc'|[Hc'|Hc']].
+      * left. exact Hc'.
+      * right. left. right. exact Hc'.
+      * destruct Hc' as [k' [j [p [Hlt [Hk' Hj]]]]].
+        destruct k' as [|k'']; simpl in Hk'.
+        -- inversion Hk'. subst j. rewrite Hi in Hj. inversion Hj. subst.
+           right. left. left. reflexivity.
+        -- right. right. exists k'', j, p. split; [lia|]. split; assumption.
+Qed.
+
+Lemma parent_before_sound : forall es r out seen,
+  parent_before es r seen out = true -> pb_spec es r seen out.
+Proof.
+  intros es r. induction out as [|i t IH]; intros seen H k i' Hk.
+  - destruct k; discriminate.
+  - simpl in H. destruct (nth_error es i) as [[u v]|] eqn:Hi; [|discriminate].
+    apply andb_true_iff in H. destruct H as [H1 H2].
+    destruct k as [|k]; simpl in Hk.
+    + inversion Hk. subst i'. exists u, v. split; [exact Hi|].
+      apply orb_true_iff in H1. destruct H1 as [H1|H1].
+      * left. apply Nat.eqb_eq. exact H1.
+      * right. left. apply memb_true_iff. exact H1.
+    + destruct (IH _ H2 k i' Hk) as [u' [v' [Hi' Hc]]].
+      exists u', v'. split; [exact Hi'|].
+      destruct Hc as [Hc|[[Hc|Hc]|Hc]].
+      * left. exact Hc.
+      * subst u'. right. right. exists 0, i, u. split; [lia|]. split; [reflexivity | exact Hi].
+      * right. left. exact Hc.
+      * destruct Hc as [k' [j [p [Hlt [Hk' Hj]]]]].
+        right. right. exists (S k'), j, p. split; [lia|]. split; assumption.
+Qed.
+
+Lemma is_perm_of_range_iff : forall out n,
+  is_perm_of_range out n = true <-> Permutation out (seq 0 n).
+Proof.
+  intros out n. unfold is_perm_of_range. rewrite andb_true_iff, Nat.eqb_eq, forallb_forall.
+  split.
+  - intros [Hlen Hall].
+    assert (Hincl : incl (seq 0 n) out).
+    { intros x Hx. apply memb_true_iff. apply Hall. exact Hx. }
+    assert (Hle : length out <= length (seq 0 n)) by (rewrite seq_length; lia).
+    apply NoDup_Permutation.
+    + apply NoDup_incl_NoDup with (l := seq 0 n); [apply seq_NoDup | exact Hle | exact Hincl].
+    + apply seq_NoDup.
+    + intros x. split.
+      * apply NoDup_length_incl; [apply seq_NoDup | exact Hle | exact Hincl].
+      * apply Hincl.
+  - intros HP. split.
+    + rewrite (Permutation_length HP). apply seq_length.
+    + intros x Hx. apply memb_true_iff.
+      apply (Permutation_in x (Permutation_sym HP) Hx).
+Qed.
+
+Lemma order_ok_iff : forall es out,
+  order_ok es out = true <->
+  exists r, root es = Some r /\ Permutation out (seq 0 (length es)) /\
+            parent_before_child es out r.
+Proof.
+  intros es out. unfold order_ok. split.
+  - destruct (root es) as [r|]; [|discriminate].
+    intros H. apply andb_true_iff in H. destruct H as [H1 H2].
+    exists r. split; [reflexivity|]. split; [apply is_perm_of_range_iff; exact H1|].
+    intros k i u v Hk Hi Hur.
+    destruct (parent_before_sound es r out [] H2 k i Hk) as [u' [v' [Hi' Hc]]].
+    rewrite Hi in Hi'. inversion Hi'. subst u' v'.
+    destruct Hc as [Hc|[[]|Hc]]; [contradiction | exact Hc].
+  - intros [r [Hroot [HP Hpbc]]]. rewrite Hroot.
+    apply andb_true_iff. split; [apply is_perm_of_range_iff; exact HP|].
+    apply parent_before_complete. intros k i Hk.
+    assert (Hin : In i (seq 0 (length es))).
+    { apply (Permutation_in i HP). apply (nth_error_In _ _ Hk). }
+    apply in_seq in Hin.
+    destruct (nth_error es i) as [[u v]|] eqn:Hi.
+    + exists u, v. split; [reflexivity|].
+      destruct (Nat.eq_dec u r) as [E|E]; [left; exact E|].
+      right. right. exact (Hpbc k i u v Hk Hi E).
+    + exfalso. apply nth_error_None in Hi. lia.
+Qed.
+
+Lemma order_ok_sound_proof : forall es out, order_ok es out = true ->
+  exists r, root es = Some r /\ Permutation out (seq 0 (length es)) /\
+            parent_before_child es out r.
+Proof. intros es out. apply order_ok_iff. Qed.
+
+Lemma toposort_tree_order_ok_proof : forall es r, arborescence es r ->
+  exists out, toposort es = Some out /\ order_ok es out = true.
+Proof.
+  intros es r Harb.
+  destruct (toposort_tree_complete_ordered_proof es r Harb) as [out [Ht [HP Hpbc]]].
+  exists out. split; [exact Ht|]. apply order_ok_iff.
+  exists r. split; [exact (arborescence_root es r Harb)|]. split; assumption.
+Qed.
+
+(* ------------------------------------------------------------------ *)
+(* The boolean tree recogniser implies the hypothesis of the theorem   *)
+
+Lemma nodupb_NoDup : forall l, nodupb l = true -> NoDup l.
+Proof.
+  induction l as [|x t IH]; simpl; intros H.
+  - constructor.
+  - apply andb_true_iff in H. destruct H as [H1 H2].
+    apply negb_true_iff in H1. apply memb_false_iff in H1.
+    constructor; [exact H1 | apply IH; exact H2].
+Qed.
+
+Lemma parent_of_edge : forall es u v,
+  NoDup (map snd es) -> In (u,v) es -> parent_of es v = Some u.
+Proof.
+  intros es u v Hnd Hin. unfold parent_of.
+  rewrite (find_first_unique _ (fun e : nat * nat => snd e =? v) es (u,v)).
+  - reflexivity.
+  - exact Hin.
+  - simpl. apply Nat.eqb_refl.
+  - intros [q w] Hy Hp. simpl in Hp. apply Nat.eqb_eq in Hp. subst w.
+    f_equal. apply (NoDup_snd_unique es q u v Hnd Hy Hin).
+Qed.
+
+Lemma parent_of_Some : forall es v p, parent_of es v = Some p -> In (p,v) es.
+Proof.
+  intros es v p H. unfold parent_of in H.
+  destruct (find (fun e : nat * nat => snd e =? v) es) as [[a b]|] eqn:Hf; [|discriminate].
+  apply find_some in Hf. destruct Hf as [Hin Hq]. simpl in Hq, H.
+  apply Nat.eqb_eq in Hq. inversion H. subst. exact Hin.
+Qed.
+
+Fixpoint climb_len (fuel : nat) (es : list edge) (v : nat) : nat :=
+  match parent_of es v with
+  | None => 0
+  | Some p => match fuel with O => 0 | S f => S (climb_len f es p) end
+  end.
+
+Lemma climb_len_mono : forall es f v t f',
+  climb f es v = Some t -> f <= f' -> climb_len f' es v = climb_len f es v.
+Proof.
+  intros es. induction f as [|f IH]; intros v t f' H Hle.
+  - simpl in H. destruct (parent_of es v) as [p|] eqn:Hp; [discriminate|].
+    destruct f'; simpl; rewrite Hp; reflexivity.
+  - simpl in H. destruct f' as [|f']; [lia|]. simpl.
+    destruct (parent_of es v) as [p|] eqn:Hp; [|reflexivity].
+    f_equal. apply (IH p t f' H). lia.
+Qed.
+
+Lemma is_tree_unfold : forall es, is_tree es = true ->
+  es <> [] /\ exists r, root es = Some r /\ nodupb (map snd es) = true /\
+  forallb (fun e : edge => match climb (length es) es (fst e) with
+                           | Some t => t =? r | None => false end) es = true.
+Proof.
+  intros es H. destruct es as [|e0 t]; [discriminate|].
+  split; [discriminate|]. unfold is_tree in H.
+  destruct (root (e0 :: t)) as [r|]; [|discriminate].
+  exists r. split; [reflexivity|]. apply andb_true_iff in H. exact H.
+Qed.
+
+Lemma is_tree_sound_proof : forall es, is_tree es = true -> exists r, arborescence es r.
+Proof.
+  intros es H. destruct (is_tree_unfold es H) as [Hne [r [Hroot [Hnd Hall]]]].
+  apply nodupb_NoDup in Hnd. rewrite forallb_forall in Hall.
+  exists r. split; [exact Hne|]. split; [exact Hnd|]. split.
+  - unfold root in Hroot. apply find_some in Hroot. destruct Hroot as [_ Hroot].
+    apply indeg0_true_iff. exact Hroot.
+  - exists (climb_len (S (length es)) es). intros u v Hin.
+    pose proof (Hall (u,v) Hin) as Hc. simpl in Hc.
+    destruct (climb (length es) es u) as [t|] eqn:Hcl; [|discriminate].
+    apply Nat.eqb_eq in Hc. subst t. split.
+    + simpl. rewrite (parent_of_edge es u v Hnd Hin). f_equal.
+      symmetry. apply (climb_len_mono es (length es) u r (S (length es)) Hcl). lia.
+    + destruct (parent_of es u) as [p|] eqn:Hp.
+      * right. apply parent_of_Some in Hp. change u with (snd (p,u)). apply in_map. exact Hp.
+      * left. destruct (length es); simpl in Hcl; rewrite Hp in Hcl; inversion Hcl; reflexivity.
+Qed.
+
+Lemma arborescence_nonvacuous : arborescence [(2,0);(3,2);(3,1);(2,4);(1,5)] 3.
+Proof.
+  split; [discriminate|]. split.
+  - simpl. repeat constructor; simpl; intros H; repeat destruct H as [H|H]; try discriminate H; exact H.
+  - split.
+    + simpl. intros H. repeat destruct H as [H|H]; try discriminate H; exact H.
+    + exists (fun n => match n with 3 => 0 | 1 => 1 | 2 => 1 | _ => 2 end).
+      intros u v H. simpl in H.
+      repeat destruct H as [H|H]; try contradiction; inversion H; subst; simpl;
+        (split; [reflexivity | auto 10]).
+Qed.
